@@ -61,6 +61,7 @@ def objJ (o : ZObj) : Json :=
     ("items", arr (fun kv => intToJson kv.1) o.p.data),
     ("zero", valJ o.p.zero), ("hashed", Json.bool o.hashed), ("exact", Json.bool (polyExact o.p)),
     ("len", natToJson o.p.data.length),
+    ("getitem", arr (fun (k : Int) => valJ (getZ o.p k)) [-1, 0, 1, 1, 7]),
     ("is_polynomial", Json.bool (isPolynomial o.p.data)),
     ("order", match order o.p.data with | .ok n => intToJson n | .error e => errJ e),
     ("values", match valuesZ o.p with | .ok l => arr valJ l | .error e => errJ e)]
